@@ -63,6 +63,7 @@ type c11Case struct {
 	Gz      int        `json:"gz,omitempty"`      // long/conc: 0 plain, 1 gzip
 	Barrier bool       `json:"barrier,omitempty"` // conc: rendezvous of all requests inside their 2nd Read (after the copy)
 	G       [][]c11Req `json:"g,omitempty"`       // conc: per goroutine its successive requests
+	GateK   int        `json:"gate_k,omitempty"`  // conc: In blocks at the k-th call of g[0]'s request (-1: its last call); g[1..] are served meanwhile
 	Only    string     `json:"only,omitempty"`    // replay: restrict serial variants ("plain"/"gzip")
 }
 
@@ -88,22 +89,63 @@ type c11Mismatch struct {
 // ---------------------------------------------------------------------------------- recorder
 
 type c11Call struct {
-	sid  pipeline.SourceID
-	data string
+	sid     pipeline.SourceID
+	data    string // the bytes the pipeline gets: copied at call time, or (lateCopy) when In stops blocking
+	entry   string // lateCopy and different: what the slice held when In was called
+	changed bool
 }
 
+// Recording controller.  Pipeline.In may block (back pressure: no free event in the pool) BEFORE it copies the
+// bytes it was given; the gate reproduces that: the gateAt-th call since arming parks in gateFn, and with lateCopy
+// the bytes that count are the ones the slice holds when the call stops blocking.
 type c11Rec struct {
 	mu             sync.Mutex
 	log            []c11Call
 	streamsOff     bool
 	maxSizeExceeds int
+	lateCopy       bool
+	gateAt, seen   int
+	gateFn         func()
+}
+
+func (r *c11Rec) arm(k int, fn func()) {
+	r.mu.Lock()
+	r.lateCopy, r.gateAt, r.seen, r.gateFn = true, k, 0, fn
+	r.mu.Unlock()
+}
+
+func (r *c11Rec) disarm() {
+	r.mu.Lock()
+	r.lateCopy, r.gateAt, r.seen, r.gateFn = false, 0, 0, nil
+	r.mu.Unlock()
 }
 
 func (r *c11Rec) In(sourceID pipeline.SourceID, _ string, _ pipeline.Offsets, data []byte, _ bool, _ metadata.MetaData) uint64 {
 	r.mu.Lock()
+	idx := len(r.log)
 	r.log = append(r.log, c11Call{sid: sourceID, data: string(data)}) // copy at call time
 	n := len(r.log)
+	late := r.lateCopy
+	var fn func()
+	if r.gateAt > 0 {
+		r.seen++
+		if r.seen == r.gateAt {
+			fn = r.gateFn
+		}
+	}
 	r.mu.Unlock()
+	if fn != nil {
+		fn() // In blocks here; other requests are served meanwhile
+	}
+	if late {
+		now := string(data) // what the pipeline copies when it finally takes the event
+		r.mu.Lock()
+		if idx < len(r.log) && r.log[idx].data != now {
+			c := &r.log[idx]
+			c.entry, c.changed, c.data = c.data, true, now
+		}
+		r.mu.Unlock()
+	}
 	return uint64(n) // non-zero: accepted
 }
 func (r *c11Rec) UseSpread()                        {}
@@ -391,6 +433,8 @@ type c11Plug struct {
 
 var c11PlugSeq int64
 
+var c11Probe sync.Pool // harness-owned: does a Put made inside the blocked In reach the Get of the request started there?
+
 // cfg: bit 0 = avg_event_size 1 instead of 4096 (fresh carry-over buffer re-allocates), bit 1 = emulate_mode elasticsearch (/_bulk)
 func c11NewPlug(cfgIdx int) *c11Plug {
 	config := &Config{Address: "off"}
@@ -501,6 +545,14 @@ type c11Stats struct {
 	BarrierMiss   int `json:"conc_barrier_timeouts"`
 	DistinctSids  int `json:"conc_max_distinct_source_ids_in_round"`
 	SidReuse      int `json:"conc_source_id_reused_by_later_request"`
+	GateCases     int `json:"gate_cases"`
+	GateRuns      int `json:"gate_runs"`
+	GateFired     int `json:"gate_in_blocked_while_other_request_served"`
+	GateLastLine  int `json:"gate_blocked_in_was_unterminated_last_line"`
+	GateNotFired  int `json:"gate_not_reached"`
+	GateStuck     int `json:"gate_other_request_did_not_finish_while_in_blocked"`
+	GateProbeHits int `json:"gate_pool_handover_probe_hits"`
+	GateProcs1    int `json:"gate_runs_with_gomaxprocs_1"`
 }
 
 func (s *c11Stats) add(o *c11Stats) {
@@ -828,10 +880,46 @@ func c11RunConc(pl *c11Plug, c *c11Case, st *c11Stats, barrierOff *int32) (mms [
 		}
 	}
 	pl.rec.reset()
-	for g := 0; g < G; g++ {
-		wg.Add(1)
-		go func(g int) {
-			defer wg.Done()
+	var serveAll func(g int)
+	gated := c.GateK != 0
+	othersDone := make(chan struct{})
+	var fired, stuck, probeHit int32
+	if gated {
+		k := c.GateK
+		if k < 0 {
+			k = len(reqs[0][0].want)
+		}
+		st.GateRuns++
+		if runtime.GOMAXPROCS(0) == 1 {
+			st.GateProcs1++
+		}
+		pl.rec.arm(k, func() {
+			// the In call of g[0]'s request is blocked (the pipeline has not copied the bytes yet).
+			// The other requests are started from here so that they most likely run on the same P (sync.Pool
+			// hands a buffer over through the P-local slot); the probe pool measures whether that worked.
+			atomic.StoreInt32(&fired, 1)
+			token := new(int)
+			c11Probe.Put(token)
+			go func() {
+				defer close(othersDone)
+				if x := c11Probe.Get(); x != nil {
+					if x.(*int) == token {
+						atomic.StoreInt32(&probeHit, 1)
+					}
+				}
+				for g := 1; g < G; g++ {
+					serveAll(g)
+				}
+			}()
+			select {
+			case <-othersDone:
+			case <-time.After(10 * time.Second): // e.g. requests serialised by a lock held across In: no window, no verdict
+				atomic.StoreInt32(&stuck, 1)
+			}
+		})
+	}
+	serveAll = func(g int) {
+		func() {
 			for _, cr := range reqs[g] {
 				body := c11Bytes(cr.r.Body, scale, cr.alpha)
 				sizes := c11ByteSizes(cr.r, scale)
@@ -860,9 +948,45 @@ func c11RunConc(pl *c11Plug, c *c11Case, st *c11Stats, barrierOff *int32) (mms [
 				}
 				cr.res = pl.serve(b, cr.gz)
 			}
+		}()
+	}
+	for g := 0; g < G; g++ {
+		if gated && g > 0 {
+			break // served from inside the blocked In call
+		}
+		wg.Add(1)
+		go func(g int) {
+			defer wg.Done()
+			serveAll(g)
 		}(g)
 	}
 	wg.Wait()
+	if gated {
+		if fired != 0 {
+			select {
+			case <-othersDone:
+			case <-time.After(60 * time.Second):
+				panic("verif: requests started inside the blocked In call never finished")
+			}
+			if stuck != 0 {
+				st.GateStuck++
+			} else {
+				st.GateFired++
+				if b := reqs[0][0].r.Body; c.GateK < 0 && len(b) > 0 && b[len(b)-1] != 0 {
+					st.GateLastLine++
+				}
+			}
+			if probeHit != 0 {
+				st.GateProbeHits++
+			}
+		} else { // the request made fewer In calls than expected: no window; serve the others now
+			st.GateNotFired++
+			for g := 1; g < G; g++ {
+				serveAll(g)
+			}
+		}
+		pl.rec.disarm()
+	}
 	if useBarrier {
 		if missed != 0 {
 			st.BarrierMiss++
@@ -875,7 +999,17 @@ func c11RunConc(pl *c11Plug, c *c11Case, st *c11Stats, barrierOff *int32) (mms [
 	pl.rec.reset()
 
 	mk := func(kind, detail string, cr *c11ConcReq, got []string) *c11Mismatch {
-		m := &c11Mismatch{Kind: kind, Fam: "conc", Variant: fmt.Sprintf("G=%d barrier=%v", G, useBarrier), Cfg: pl.cfg, Detail: detail, Case: c}
+		variant := fmt.Sprintf("G=%d barrier=%v", G, useBarrier)
+		if gated {
+			variant = fmt.Sprintf("gate k=%d procs=%d", c.GateK, runtime.GOMAXPROCS(0))
+			for _, cl := range log {
+				if cl.changed {
+					detail += " [the bytes of an event changed while its In call was blocked: " + c11Trim([]string{cl.entry})[0] + " -> " + c11Trim([]string{cl.data})[0] + "]"
+					break
+				}
+			}
+		}
+		m := &c11Mismatch{Kind: kind, Fam: "conc", Variant: variant, Cfg: pl.cfg, Detail: detail, Case: c}
 		if cr != nil {
 			m.Goroutine, m.Req, m.End, m.Status = cr.g, cr.j, cr.r.End, cr.res.status
 			m.StatusAt, m.NCalls = cr.res.statusAt, len(got)
@@ -1111,15 +1245,35 @@ func TestVerifC11(t *testing.T) {
 	for i := range shared {
 		shared[i] = c11NewPlug(i)
 	}
-	for _, c := range conc {
-		total.Cases++
-		total.ConcCases++
-		cm := c11RunConc(shared[c.ID%4], c, &total, &barrierOff)
+	keep := func(cm []*c11Mismatch) {
 		nmm += len(cm)
 		for _, m := range cm {
 			if len(mms) < 60 {
 				mms = append(mms, m)
 			}
+		}
+	}
+	var gated []*c11Case
+	for _, c := range conc {
+		total.Cases++
+		if c.GateK != 0 {
+			total.GateCases++
+			gated = append(gated, c)
+			continue
+		}
+		total.ConcCases++
+		keep(c11RunConc(shared[c.ID%4], c, &total, &barrierOff))
+	}
+	// blocked-In windows: once with a single P (sync.Pool hands a buffer put by one goroutine to the next Get for
+	// sure), once with the default number of Ps
+	if len(gated) > 0 {
+		prev := runtime.GOMAXPROCS(1)
+		for _, c := range gated {
+			keep(c11RunConc(shared[c.ID%4], c, &total, &barrierOff))
+		}
+		runtime.GOMAXPROCS(prev)
+		for _, c := range gated {
+			keep(c11RunConc(shared[c.ID%4], c, &total, &barrierOff))
 		}
 	}
 	for _, pl := range shared {
